@@ -456,8 +456,9 @@ def main():
     )
     if spec.get('level') != 'proof':
         ev['coverage']['explanation'] = spec.get('explanation', ev['coverage']['explanation'])
-    os.makedirs(os.path.join(VERIF, 'evidence'), exist_ok=True)
-    json.dump(ev, open(os.path.join(VERIF, 'evidence', pid + '.json'), 'w'), indent=1)
+    evdir = os.environ.get('VERIF_EVIDENCE_DIR') or os.path.join(VERIF, 'evidence')
+    os.makedirs(evdir, exist_ok=True)
+    json.dump(ev, open(os.path.join(evdir, pid + '.json'), 'w'), indent=1)
     if oc.violations:
         import replayer_run
         for n, v in enumerate(oc.violations[:3]):
